@@ -5,6 +5,8 @@ import WK.Model.ReplJudge
   Judge (on the implementation's observations only):
    * a NEW acknowledgement (a range no earlier receipt covered) is given only when the
      leader and ≥ q voters hold the range (`viol:ack-without-quorum`);
+   * an authority whose write quorum is not a majority of the voters is never installed
+     (`viol:non-majority-quorum-installed`);
    * after every op, every client-acknowledged entry is still on every voter
      that held it, and a leader that just became writable holds it with the
      same identity.  A loss is classified by the install that caused it:
@@ -40,6 +42,9 @@ def judge (j : JState) (op : Op) (cur : Obs) : String :=
      | _ => "viol:acked-entry-lost:no-install")
   else if fates.any (· == .lostKnown) then "viol:acked-entry-lost:" ++ knownSuffix
   else match op, cur.res with
+    | .install _ a _ _, "ok" :: _ =>
+      -- an even split (2q ≤ N) is not a quorum: two disjoint "quorums" could both acknowledge
+      if a.q * 2 ≤ j.n then "viol:non-majority-quorum-installed" else "ok"
     | .commit i _ _ _ _ _, ["ok", _, _, f, l, _] =>
       (match f.toNat?, l.toNat? with
        | some f, some l =>
